@@ -2,4 +2,16 @@
 
 
 def classify(w):
+    start, labels = w["history"]
+    what = w["what"].split("] ", 1)[-1]
+    last = labels[-1] if labels else None
+    prev = list(labels[:-1])
+    if last == "abs_inst" and "lag_on" in prev and "iov" in prev[prev.index("lag_on"):] and "lag_off" not in prev and \
+            what.startswith("evaluation: "):
+        return "instantaneous_absorption_after_lag_time_and_iov_keeps_alag_statement"
+    nonlin = ("elim_mm", "elim_mix", "elim_zo")
+    if start == "pheno_oral_trans1" and last == "elim_fo" and "periph_add" in prev and \
+            any(x in nonlin for x in prev[prev.index("periph_add") + 1:]) and \
+            (what.startswith("evaluation: ") or what.startswith("parameters: ")):
+        return "trans1_peripheral_nonlinear_then_first_order_elimination_corrupts_system"
     return None
